@@ -24,16 +24,22 @@ pub struct CfgParams {
     /// the device updates its configuration before the accesses with these indices (0-based,
     /// counting generation and field accesses from the start of construction)
     pub at: Vec<usize>,
+    /// generation the device starts with, and what it adds for every update (a device may use
+    /// any value different from the previous one: counters wrap, 8-bit counters restart)
+    pub gen0: u32,
+    pub step: u32,
 }
 impl CfgParams {
     pub fn to_json(&self) -> Value {
-        json!({"family":"cfg","reader":self.reader,"transport":self.transport,"at":self.at})
+        json!({"family":"cfg","reader":self.reader,"transport":self.transport,"at":self.at,"gen0":hex(self.gen0 as u64),"step":hex(self.step as u64)})
     }
     pub fn from_json(v: &Value) -> Self {
         CfgParams {
             reader: v["reader"].as_str().unwrap().into(),
             transport: v["transport"].as_str().unwrap().into(),
             at: v["at"].as_array().unwrap().iter().map(|x| x.as_u64().unwrap() as usize).collect(),
+            gen0: v["gen0"].as_str().map(|s| u32::from_str_radix(s.trim_start_matches("0x"), 16).unwrap()).unwrap_or(0),
+            step: v["step"].as_str().map(|s| u32::from_str_radix(s.trim_start_matches("0x"), 16).unwrap()).unwrap_or(1),
         }
     }
 }
@@ -79,7 +85,7 @@ pub fn run(p: &CfgParams, sc: &str) -> (Vec<String>, Value) {
     reset_world();
     hooks::install(Box::new(|_| {}));
     let offered: u64 = (1 << 32) | 1; // VERSION_1 + (console) SIZE
-    let state = Rc::new(RefCell::new((0u32, 1u8))); // (generation, snapshot id)
+    let state = Rc::new(RefCell::new((p.gen0, 1u8))); // (generation, snapshot id)
     let count = Rc::new(RefCell::new(0usize));
     let cfg0 = snapshot(&p.reader, 1);
     enum AnyT {
@@ -89,23 +95,27 @@ pub fn run(p: &CfgParams, sc: &str) -> (Vec<String>, Value) {
     let mut mmio_dev = None;
     let t = if p.transport == "mmio" {
         let dev = Rc::new(RefCell::new(crate::mmio::VirtioMmioDev::new(2, zoo::device_type(&p.reader) as u32, offered, zoo::num_queues(&p.reader), 32768, cfg0.clone())));
+        dev.borrow_mut().config_gen = p.gen0;
         let size = 0x100 + cfg0.len();
         let base = crate::mmio::map(size, dev.clone(), "mmio", 0);
         mmio_dev = Some(dev);
         let hdr = std::ptr::NonNull::new(base as *mut virtio_drivers::transport::mmio::VirtIOHeader).unwrap();
         AnyT::Mmio(unsafe { virtio_drivers::transport::mmio::MmioTransport::new(hdr, size) }.expect("probe"))
     } else {
-        AnyT::Model(ModelTransport::new(zoo::device_type(&p.reader), offered, false, zoo::num_queues(&p.reader), 32768, cfg0))
+        let t = ModelTransport::new(zoo::device_type(&p.reader), offered, false, zoo::num_queues(&p.reader), 32768, cfg0);
+        with_t(|t| t.config_gen = p.gen0);
+        AnyT::Model(t)
     };
     {
         let (state, count, at, reader, mm) = (state.clone(), count.clone(), p.at.clone(), p.reader.clone(), mmio_dev.clone());
+        let step = p.step;
         set_cfg_cb(Some(Box::new(move |_kind, _off| {
             let k = *count.borrow();
             *count.borrow_mut() += 1;
             if at.contains(&k) {
                 let (g, s) = {
                     let mut st = state.borrow_mut();
-                    st.0 += 1;
+                    st.0 = st.0.wrapping_add(step);
                     st.1 += 1;
                     *st
                 };
@@ -119,13 +129,13 @@ pub fn run(p: &CfgParams, sc: &str) -> (Vec<String>, Value) {
                         t.config_gen = g;
                     }),
                 }
-                with_world(|w| w.dev(json!({"e":"DevUpdate","gen":g,"snap":s})));
+                with_world(|w| w.dev(json!({"e":"DevUpdate","gen":hex(g as u64),"snap":s})));
             }
         })));
     }
     with_world(|w| {
         w.trace.clear();
-        w.dev(json!({"e":"CfgReset","sc":sc,"gen":0,"snap":1}));
+        w.dev(json!({"e":"CfgReset","sc":sc,"gen":hex(p.gen0 as u64),"snap":1}));
         if p.reader != "console" {
             w.dev(json!({"e":"CfgCall","reader":p.reader}));
         }
@@ -161,6 +171,15 @@ pub fn run(p: &CfgParams, sc: &str) -> (Vec<String>, Value) {
                 l.contains("\"e\":\"Cfg") || l.contains("\"e\":\"DevUpdate\"") || l.contains("\"e\":\"Panic\"")
                     || l.contains("\"op\":\"cfg_gen\"") || l.contains("\"op\":\"cfg_read\"")
             })
+            .map(|l| {
+                if l.contains("\"op\":\"cfg_gen\"") {
+                    let mut v: Value = serde_json::from_str(&l).unwrap();
+                    v["v"] = json!(hex(v["v"].as_u64().unwrap_or(0)));
+                    v.to_string()
+                } else {
+                    l
+                }
+            })
             .collect();
         w.trace.clear();
         l
@@ -170,18 +189,28 @@ pub fn run(p: &CfgParams, sc: &str) -> (Vec<String>, Value) {
 }
 
 pub fn all_params(thorough: bool) -> Vec<CfgParams> {
-    let mut v = vec![];
+    let mut v: Vec<CfgParams> = vec![];
     let horizon = if thorough { 16 } else { 10 };
+    // generation sequences: counting up from 0, wrapping through 2^32, counting down, an 8-bit
+    // counter restarting (255 -> 0 as seen in a 32-bit register: step 2^32-255)
+    let gens: [(u32, u32); 5] = [(0, 1), (0xffff_ffff, 1), (0xffff_fffe, 1), (1, 0xffff_ffff), (255, 0xffff_ff01)];
+    let mut k = 0usize;
+    let mut push = |v: &mut Vec<CfgParams>, reader: &str, transport: &str, at: Vec<usize>| {
+        let sel: Vec<(u32, u32)> = if thorough || at.len() <= 1 { gens.to_vec() } else { k += 1; vec![gens[0], gens[1 + k % 4]] };
+        for (gen0, step) in sel {
+            v.push(CfgParams { reader: reader.into(), transport: transport.into(), at: at.clone(), gen0, step });
+        }
+    };
     for reader in ["blk", "socket", "console", "netraw", "9p"] {
         for transport in ["model", "mmio"] {
-            v.push(CfgParams { reader: reader.into(), transport: transport.into(), at: vec![] });
+            push(&mut v, reader, transport, vec![]);
             for a in 0..horizon {
-                v.push(CfgParams { reader: reader.into(), transport: transport.into(), at: vec![a] });
+                push(&mut v, reader, transport, vec![a]);
                 for b in (a + 1)..horizon {
-                    v.push(CfgParams { reader: reader.into(), transport: transport.into(), at: vec![a, b] });
+                    push(&mut v, reader, transport, vec![a, b]);
                     if thorough {
                         for c in (b + 1)..horizon {
-                            v.push(CfgParams { reader: reader.into(), transport: transport.into(), at: vec![a, b, c] });
+                            push(&mut v, reader, transport, vec![a, b, c]);
                         }
                     }
                 }
